@@ -274,7 +274,10 @@ Inductive op :=
 | ObjWrite (idx v : Z)                (* local.sdo[idx].raw = v ; idx 0x1017 = producer heartbeat time *)
 | GuardStart (p : Z)                  (* remote.nmt.start_node_guarding(p) *)
 | GuardStop
-| Disconnect.
+| Disconnect
+| SyncSetPeriod (p : option Z)        (* network.sync.period = p   (attribute assignment, no call) *)
+| PdoSetCob (i : nat) (c : Z)         (* map.cob_id = c *)
+| PdoSetPeriod (i : nat) (p : option Z).  (* map.period = p *)
 
 Definition step (s : state) (o : op) : state * option Z :=
   match o with
@@ -328,6 +331,17 @@ Definition step (s : state) (o : op) : state * option Z :=
   | GuardStart p => guard_start s p
   | GuardStop => (guard_stop s, ok)
   | Disconnect => (disconnect s, ok)
+  | SyncSetPeriod p => (set_sync s (st_bus s) (mkSy p (sy_task (st_sync s))), ok)
+  | PdoSetCob i c =>
+      match nth_error (st_pdos s) i with
+      | None => (s, raised E_KEY)
+      | Some pd => (set_pdo s (st_bus s) i (mkPd c (pd_nvars pd) (pd_data pd) (pd_period pd) (pd_task pd)), ok)
+      end
+  | PdoSetPeriod i p =>
+      match nth_error (st_pdos s) i with
+      | None => (s, raised E_KEY)
+      | Some pd => (set_pdo s (st_bus s) i (mkPd (pd_cob pd) (pd_nvars pd) (pd_data pd) p (pd_task pd)), ok)
+      end
   end.
 
 Definition step_st (s : state) (o : op) : state := fst (step s o).
@@ -355,22 +369,33 @@ Definition carries (bt : btask) (pt : ptask) : Prop :=
   bt_alive bt = true /\ bt_id bt = pt_can pt /\ bt_data bt = pt_data pt /\
   bt_period bt = pt_period pt /\ bt_remote bt = pt_remote pt.
 
-(* [pt] holds what the API state of producer [p] says: CAN id, payload, period, remote flag *)
-Definition current (s : state) (p : prod) (pt : ptask) : Prop :=
+(* [pt] holds what the API state of producer [p] says, as far as only CALLS can change it:
+   CAN id, payload and remote flag of SYNC / heartbeat / guarding, heartbeat period and state byte *)
+Definition frame_current (s : state) (p : prod) (pt : ptask) : Prop :=
   match p with
-  | PSync =>
-      pt_can pt = SYNC_COB_ID /\ pt_data pt = [] /\ pt_remote pt = false /\ pt_period pt <> 0 /\
-      exists q, sy_period (st_sync s) = Some q /\ (q <> 0 -> pt_period pt = q)
+  | PSync => pt_can pt = SYNC_COB_ID /\ pt_data pt = [] /\ pt_remote pt = false /\ pt_period pt <> 0
   | PHb =>
       let h := st_hb s in
       pt_can pt = HB_BASE + hb_node h /\ pt_remote pt = false /\ pt_period pt = hb_ms h /\ 0 < hb_ms h /\
       (st_conn s = true -> pt_data pt = [hb_state h])
   | PGuard =>
       pt_can pt = HB_BASE + gd_node (st_guard s) /\ pt_data pt = [] /\ pt_remote pt = true
-  | PPdo i =>
-      exists pd, nth_error (st_pdos s) i = Some pd /\ pt_can pt = pd_cob pd /\ pt_remote pt = false /\
-                 pd_period pd = Some (pt_period pt) /\ pt_period pt <> 0
+  | PPdo i => pt_remote pt = false /\ pt_period pt <> 0
   end.
+
+(* [pt] agrees with the public attributes an application may also ASSIGN (SyncProducer.period,
+   PdoMap.cob_id, PdoMap.period); an assignment takes effect at the next start() *)
+Definition attrs_current (s : state) (p : prod) (pt : ptask) : Prop :=
+  match p with
+  | PSync => exists q, sy_period (st_sync s) = Some q /\ (q <> 0 -> pt_period pt = q)
+  | PPdo i => exists pd, nth_error (st_pdos s) i = Some pd /\ pt_can pt = pd_cob pd /\
+                         pd_period pd = Some (pt_period pt)
+  | _ => True
+  end.
+
+(* X = producers exempted from the attribute clause (those whose attributes have been assigned) *)
+Definition current (X : prod -> Prop) (s : state) (p : prod) (pt : ptask) : Prop :=
+  frame_current s p pt /\ (~ X p -> attrs_current s p pt).
 
 (* abstract part: bus registry against a handle assignment *)
 Definition AInv (b : bus) (tk : prod -> option ptask) : Prop :=
@@ -378,9 +403,17 @@ Definition AInv (b : bus) (tk : prod -> option ptask) : Prop :=
   (forall p q pt qt, tk p = Some pt -> tk q = Some qt -> pt_tid pt = pt_tid qt -> p = q) /\
   (forall t, bus_alive b t = true -> exists p pt, tk p = Some pt /\ pt_tid pt = t).
 
-Definition inv (s : state) : Prop :=
-  AInv (st_bus s) (task_of s) /\ (forall p pt, task_of s p = Some pt -> current s p pt).
+Definition inv (X : prod -> Prop) (s : state) : Prop :=
+  AInv (st_bus s) (task_of s) /\ (forall p pt, task_of s p = Some pt -> current X s p pt).
 
+(* the operation assigns an attribute of producer p *)
+Definition touches (o : op) (p : prod) : bool :=
+  match o, p with
+  | SyncSetPeriod _, PSync => true
+  | PdoSetCob i _, PPdo j => Nat.eqb i j
+  | PdoSetPeriod i _, PPdo j => Nat.eqb i j
+  | _, _ => false
+  end.
 
 (* producer p has nothing on the wire: it holds no handle and every live task belongs to another producer *)
 Definition none_running (s : state) (p : prod) : Prop :=
